@@ -634,3 +634,210 @@ pub fn t_tee_tick_and_top<'a>(p: &P<'a>) {
         .embedded_output("out0");
     obs_final(a.count(), "out1");
 }
+
+// ---------------------------------------------------------------------------------------------
+// C32: one micro-program per trusted call site (assume_ordering_trusted / assume_retries_trusted /
+// _trusted_bounded in hydro_lang/src/live_collections). The input is typed as weak as the operator
+// accepts through the *safe* weaken_* calls; the harness plays the adversary the type allows.
+// `x_*_top`: eventual value at top level; `x_*_tick`: per-batch value inside a tick.
+// ---------------------------------------------------------------------------------------------
+
+fn weak<'a>(p: &P<'a>, name: &str) -> Stream<i64, P<'a>, Unbounded, NoOrder, AtLeastOnce> {
+    p.embedded_input::<i64>(name)
+        .weaken_ordering::<NoOrder>()
+        .weaken_retries::<AtLeastOnce>()
+}
+
+pub fn x_max_min_top<'a>(p: &P<'a>) {
+    // stream/mod.rs max / min: assume_retries_trusted + assume_ordering_trusted_bounded
+    let w = weak(p, "in0");
+    obs_final_opt(w.clone().max(), "out0");
+    obs_final_opt(w.min(), "out1");
+}
+
+pub fn x_max_min_tick<'a>(p: &P<'a>) {
+    let tick = p.tick();
+    let b = weak(p, "in0").batch(&tick, nondet!(/** schedule */));
+    b.clone().max().all_ticks().embedded_output("out0");
+    b.min().all_ticks().embedded_output("out1");
+}
+
+pub fn x_count_top<'a>(p: &P<'a>) {
+    // stream/mod.rs count: assume_ordering_trusted (input NoOrder, ExactlyOnce)
+    obs_final(p.embedded_input::<i64>("in0").weaken_ordering::<NoOrder>().count(), "out0");
+}
+
+pub fn x_count_tick<'a>(p: &P<'a>) {
+    let tick = p.tick();
+    p.embedded_input::<i64>("in0")
+        .weaken_ordering::<NoOrder>()
+        .batch(&tick, nondet!(/** schedule */))
+        .count()
+        .all_ticks()
+        .embedded_output("out0");
+}
+
+pub fn x_first_last_top<'a>(p: &P<'a>) {
+    // stream/mod.rs first / last: assume_retries_trusted (input TotalOrder, AtLeastOnce)
+    let a = p.embedded_input::<i64>("in0").weaken_retries::<AtLeastOnce>();
+    obs_final_opt(a.clone().first(), "out0");
+    obs_final_opt(a.last(), "out1");
+}
+
+pub fn x_first_last_tick<'a>(p: &P<'a>) {
+    let tick = p.tick();
+    let b = p
+        .embedded_input::<i64>("in0")
+        .weaken_retries::<AtLeastOnce>()
+        .batch(&tick, nondet!(/** schedule */));
+    b.clone().first().all_ticks().embedded_output("out0");
+    b.last().all_ticks().embedded_output("out1");
+}
+
+pub fn x_is_empty_tick<'a>(p: &P<'a>) {
+    // stream/mod.rs is_empty: assume_ordering_trusted on a bounded stream
+    let tick = p.tick();
+    weak(p, "in0")
+        .filter(q!(|x| *x >= 2))
+        .batch(&tick, nondet!(/** schedule */))
+        .is_empty()
+        .all_ticks()
+        .embedded_output("out0");
+}
+
+pub fn x_repeat_with_keys_tick<'a>(p: &P<'a>) {
+    // stream/mod.rs repeat_with_keys: keys().assume_ordering_trusted
+    let tick = p.tick();
+    let keys = p
+        .embedded_input::<(i64, i64)>("in0")
+        .batch(&tick, nondet!(/** schedule */))
+        .into_keyed()
+        .first();
+    let vals = p.embedded_input::<i64>("in1").batch(&tick, nondet!(/** schedule */));
+    vals.repeat_with_keys(keys)
+        .entries_partially_ordered(nondet!(/** observation: per-key order */))
+        .all_ticks()
+        .embedded_output("out0");
+}
+
+pub fn x_noop_casts_top<'a>(p: &P<'a>) {
+    // weaken_ordering / weaken_retries / make_totally_ordered / make_exactly_once are no-ops
+    let a = p.embedded_input::<i64>("in0");
+    a.clone().make_totally_ordered().make_exactly_once().embedded_output("out0");
+    obs_bag(a.clone().weaken_ordering::<NoOrder>(), "out1");
+    obs_bag(a.clone().weaken_retries::<AtLeastOnce>().unique(), "out2");
+    a.weaken_ordering::<TotalOrder>().weaken_retries::<ExactlyOnce>().embedded_output("out3");
+}
+
+pub fn x_keyed_noop_casts_top<'a>(p: &P<'a>) {
+    let ks = p.embedded_input::<(i64, i64)>("in0").into_keyed();
+    obs_keyed(ks.clone().make_totally_ordered().make_exactly_once(), "out0");
+    obs_bag(ks.clone().weaken_ordering::<NoOrder>().entries(), "out1");
+    obs_bag(ks.weaken_retries::<AtLeastOnce>().unique().entries(), "out2");
+}
+
+pub fn x_value_counts_top<'a>(p: &P<'a>) {
+    // keyed_stream value_counts: make_exactly_once + assume_ordering_trusted (values NoOrder)
+    let ks = p
+        .embedded_input::<(i64, i64)>("in0")
+        .into_keyed()
+        .weaken_ordering::<NoOrder>();
+    obs_final_keyed(ks.value_counts(), "out0");
+}
+
+pub fn x_value_counts_tick<'a>(p: &P<'a>) {
+    let tick = p.tick();
+    p.embedded_input::<(i64, i64)>("in0")
+        .into_keyed()
+        .weaken_ordering::<NoOrder>()
+        .batch(&tick, nondet!(/** schedule */))
+        .value_counts()
+        .entries()
+        .all_ticks()
+        .assume_ordering::<TotalOrder>(nondet!(/** observation: multiset per tick */))
+        .embedded_output("out0");
+}
+
+pub fn x_ks_into_singleton_top<'a>(p: &P<'a>) {
+    // keyed_singleton into_singleton (bounded values: line 689; changing values: line 429)
+    let ks = p.embedded_input::<(i64, i64)>("in0").into_keyed();
+    obs_final(
+        ks.clone().first().into_singleton().map(q!(|m| {
+            let mut v: Vec<(i64, i64)> = m.into_iter().collect();
+            v.sort();
+            v
+        })),
+        "out0",
+    );
+    obs_final(
+        ks.fold(q!(|| 0i64), q!(|acc, v| *acc = *acc * 2 + v))
+            .into_singleton()
+            .map(q!(|m| {
+                let mut v: Vec<(i64, i64)> = m.into_iter().collect();
+                v.sort();
+                v
+            })),
+        "out1",
+    );
+}
+
+pub fn x_ks_into_singleton_tick<'a>(p: &P<'a>) {
+    let tick = p.tick();
+    let ks = p
+        .embedded_input::<(i64, i64)>("in0")
+        .batch(&tick, nondet!(/** schedule */))
+        .into_keyed();
+    ks.clone()
+        .first()
+        .into_singleton()
+        .map(q!(|m| {
+            let mut v: Vec<(i64, i64)> = m.into_iter().collect();
+            v.sort();
+            v
+        }))
+        .all_ticks()
+        .embedded_output("out0");
+    ks.first().key_count().all_ticks().embedded_output("out1");
+}
+
+pub fn x_ks_get_max_key_top<'a>(p: &P<'a>) {
+    // keyed_singleton get_max_key: entries().assume_ordering_trusted().reduce(max by key)
+    let ks = p.embedded_input::<(i64, i64)>("in0").into_keyed();
+    obs_final_opt(ks.first().get_max_key(), "out0");
+}
+
+pub fn x_ks_get_max_key_tick<'a>(p: &P<'a>) {
+    let tick = p.tick();
+    p.embedded_input::<(i64, i64)>("in0")
+        .batch(&tick, nondet!(/** schedule */))
+        .into_keyed()
+        .first()
+        .get_max_key()
+        .all_ticks()
+        .embedded_output("out0");
+}
+
+// ---------------------------------------------------------------------------------------------
+// reproducers of confirmed findings (prefix k_): kept in the corpus so that every run re-checks
+// them under their exact signature (listed in /verif/known_findings.json)
+// ---------------------------------------------------------------------------------------------
+
+pub fn k_zip_into_stream<'a>(p: &P<'a>) {
+    // top-level zip of two bounded singletons, turned into a (bounded) stream: must hold ONE element
+    p.singleton(q!(3i64))
+        .zip(p.singleton(q!(4i64)))
+        .into_stream()
+        .embedded_output("out0");
+    p.embedded_input::<i64>("in0").embedded_output("out1");
+}
+
+pub fn k_zip_count<'a>(p: &P<'a>) {
+    // ... and its count must be the frozen value 1
+    p.singleton(q!(3i64))
+        .zip(p.singleton(q!(4i64)))
+        .into_stream()
+        .count()
+        .into_stream()
+        .embedded_output("out0");
+    p.embedded_input::<i64>("in0").embedded_output("out1");
+}
